@@ -16,7 +16,10 @@ CONFIG = dict(
           "two criteria on prepared stacks incl. the [copy, selection, population] shape the CRO template produces; "
           "(4) init: ChemicalReactionInit; (5) run: real_cro template runs (3 parameter points x 4 instances x seeds) "
           "under the step observer: every reaction update (energy before/after within 1e-9 relative, no negative KE/"
-          "buffer, molecule count = population size, two populations consumed) and every loop-pass boundary. "
+          "buffer, molecule count = population size, two populations consumed) and every loop-pass boundary; the state's "
+          "generator is swapped for a SplitMix-backed scripted one before the first draw, and EVERY reaction update of the "
+          "runs is re-emitted as a prepared case (individuals interned to tags, exact words consumed) that the model "
+          "re-derives exactly (run-onwall / run-decomp / run-inter / run-synth). "
           "Non-trivial = a well-formed reaction, criterion or run; distinct = distinct input line."),
     nontrivial=lambda inp: "malformed" not in inp and not inp.startswith("(init"),
     trusted_base=[
